@@ -76,6 +76,9 @@ package subscriber
 //@   ghost relIPv6 mathint = 0
 //@   ensures gotIPv4 == 1 ==> (lockedN(2, sessionID in m.sessions) && lockedN(2, m.sessions[sessionID]) == session) || relIPv4 == 1
 //@   ensures gotIPv4 == 0 ==> relIPv4 == 0
+// an address that WAS recorded on the live session belongs to that session from then on (its
+// termination releases it): this call never releases it as well
+//@   ensures relIPv4 == 1 ==> !(lockedN(2, sessionID in m.sessions) && lockedN(2, m.sessions[sessionID]) == session)
 //@   ensures relIPv4 <= 1 && relIPv6 <= 1 && (relIPv4 == 1 || relIPv6 == 1 ==> err != nil)
 
 //@ func NewManager
